@@ -39,15 +39,12 @@ theorem tagByte_toNat (t : Tag) : t.toByte.toNat = t.toNat := by
 theorem reads_temporal (k : TKind) (s : Bytes) (hv : validUtf8 s = true) (hl : s.length < 2 ^ 32)
     (hc : (temporalCheck k s).toBool = true) :
     Reads (readTemporal k) (writeString s) (.temporal k s) := by
+  intro rest
   unfold readTemporal
-  have := Reads.bind (g := fun s' => match temporalCheck k s' with
-      | .ok _ => (Pure.pure (BVal.temporal k s') : Reader BVal)
-      | .error .err => fail .badTemporal
-      | .error .panic => fail .panic) (Reads.string hv hl) (w2 := []) (b := .temporal k s) (by
-    cases h : temporalCheck k s with
-    | ok u => exact Reads.pure _
-    | error e => rw [h] at hc; cases hc)
-  simpa using this
+  rw [bind_def, bind_res_ok (Reads.string hv hl rest)]
+  cases h : temporalCheck k s with
+  | ok u => rfl
+  | error e => rw [h] at hc; cases hc
 
 theorem reads_body (v : BVal) (h : v.WF) : Reads (readBody v.tag) (writeBody v) v := by
   cases v with
